@@ -104,7 +104,7 @@ pub fn main() {
                 println!("(compile-level finding; re-run `./run check C19` to re-evaluate on this tree)");
                 std::process::exit(2);
             }
-            if part_name == "custom" && matches!(id, "C17" | "C18" | "C03" | "C14" | "C15") {
+            if part_name == "custom" && matches!(id, "C17" | "C18" | "C03" | "C14" | "C15" | "C08" | "C07") {
                 // bounded-exhaustive finding: explicit scheduler choices
                 let case: crate::sched_checks::SchedCase = serde_json::from_value(v["case"]["case"].clone()).expect("explicit schedule case");
                 let focus = match id {
@@ -112,6 +112,8 @@ pub fn main() {
                     "C18" => crate::sched_checks::SF::C18,
                     "C03" => crate::sched_checks::SF::C03,
                     "C14" => crate::sched_checks::SF::C14,
+                    "C08" => crate::sched_checks::SF::C08,
+                    "C07" => crate::sched_checks::SF::C07,
                     _ => crate::sched_checks::SF::C15,
                 };
                 let out = crate::sched_checks::judge(&case, focus, Some(true));
@@ -133,7 +135,18 @@ pub fn main() {
                 std::process::exit(2);
             };
             let bytes = infra::unhex(v["bytes"].as_str().unwrap_or(""));
-            let out = (part.run)(&bytes, tier);
+            // Parts whose cases share the process (layer 1: harness-owned statics that every case
+            // resets first) are replayed up to three times in this process: the same case after
+            // itself is a legitimate longer history, and a defect that needs an operation to
+            // have happened before (a second reset, a second expiry) shows from the second run.
+            let runs = if part.forked || part.fresh_process { 1 } else { 3 };
+            let mut out = (part.run)(&bytes, tier);
+            for _ in 1..runs {
+                if out.violation.is_some() {
+                    break;
+                }
+                out = (part.run)(&bytes, tier);
+            }
             println!("case: {}", serde_json::to_string(&(part.describe)(&bytes, tier)).unwrap());
             match out.violation {
                 Some(viol) => {
